@@ -730,11 +730,10 @@ def build_policy(policy_key, env_name, env=None, seed=0, spread=1.5, embed_dim=3
                     prm.mul_(float(spread))
     finally:
         torch.set_rng_state(state)
-    for m in p.modules():
-        if isinstance(m, nn.Dropout):
-            m.p = 0.0
-        if isinstance(m, (nn.LSTM, nn.GRU)):
-            m.dropout = 0.0
+    # No bundled policy of the zoo has an active dropout on the pinned tree (every nn.Dropout / LSTM dropout is built with
+    # p = 0: measured for all keys), which is what makes a train-mode forward pass a deterministic function of its inputs -
+    # the harness must NOT zero dropouts itself: a dropout that becomes active (a lost `dropout=0.0` argument) has to show
+    # in the train-mode cases of C11 / C16.
     if double:
         p = p.double()
     p.eval()
